@@ -1,5 +1,5 @@
 (** Correspondence and monitor for the pooled POST parameters (C07, C09). *)
-From GV Require Import Base.Prelude Model.ParamPool.
+From GV Require Import Base.Prelude Base.Threads Model.ParamPool Model.PoolConc.
 Open Scope string_scope.
 Open Scope list_scope.
 
@@ -33,3 +33,27 @@ Definition pool_mon (c : pool_case) : bool := list_eqb oview_eqb (pc_obs c) (pc_
 Definition pool_monmodel (c : pool_case) : bool :=
   list_eqb oview_eqb (map view_of (serve_pool [] true pzero (pc_hist c)))
            (map (fun h => view_of (fill pzero (fst h) (snd h))) (pc_hist c)).
+
+(** ** requests in flight together (Model.PoolConc): [pc_hist] is a batch sent at once, [pc_obs] what each
+    request's executor was handed.  The model is run under a schedule that interleaves the requests step by step and
+    lets every Get take an object out of the pool whenever one is there (the theorem [C07_in_flight_as_alone] says the
+    schedule does not matter). *)
+Fixpoint first_in_pool (heap : list (params * owner)) (k : nat) {struct heap} : option nat :=
+  match heap with
+  | [] => None
+  | (_, InPool) :: _ => Some k
+  | _ :: r => first_in_pool r (S k)
+  end.
+Definition auto_step (s : pstate) (i : nat) : pstate :=
+  match pstep false s i (first_in_pool (ps_heap s) 0) with Some s' => s' | None => s end.
+(** request i gets its k-th turn at time 2*k + i: staggered, so that objects are taken from the pool by some and
+    allocated by others *)
+Definition stagger (n : nat) : list nat :=
+  flat_map (fun t => filter (fun i => Nat.leb i t && Nat.ltb (t - i) 6) (seq 0 n)) (seq 0 (n + 8)).
+Definition flight_model (c : pool_case) : list (option pview) :=
+  let n := List.length (pc_hist c) in
+  map (fun v => match v with Some r => view_of r | None => None end)
+      (seen_by (fold_left auto_step (stagger n ++ stagger n) (pinit (pc_hist c)))).
+Definition flight_corr (c : pool_case) : bool := list_eqb oview_eqb (flight_model c) (pc_obs c).
+Definition flight_monmodel (c : pool_case) : bool :=
+  list_eqb oview_eqb (flight_model c) (map (fun h => view_of (fill pzero (fst h) (snd h))) (pc_hist c)).
